@@ -124,6 +124,7 @@ def make_parser(tbl: dict):
 
 
 CASE_TIMEOUT_S = 2.0
+_TIMEOUTS = mp.Value("i", 0)      # shared with the forked workers: stop evaluating once parses stop returning
 
 
 class CaseTimeout(Exception):
@@ -554,9 +555,11 @@ def _judge(cases, with_reference: bool):
     use_repo()
     lines, answers, problems, incons = [], [], [], []
     xr_lines, xr_expected = [], []
-    nontrivial = wf_count = timeouts = 0
+    nontrivial = wf_count = 0
     parser_cache: dict[str, object] = {}
     for tbl, toks, counted in cases:
+        if _TIMEOUTS.value >= 6:
+            break
         key = enc_table(tbl)
         parser = parser_cache.get(key)
         if parser is None:
@@ -565,9 +568,10 @@ def _judge(cases, with_reference: bool):
         lines.append("X " + key + " " + " ".join(toks))
         answers.append(ans)
         if ans.startswith("no-return"):
-            timeouts += 1
-            if timeouts >= 3:        # do not sit out thousands of timeouts; the finding is recorded
-                break
+            with _TIMEOUTS.get_lock():
+                _TIMEOUTS.value += 1
+        if _TIMEOUTS.value >= 6:     # do not sit out thousands of timeouts; the findings are recorded
+            break
         if inc and len(incons) < 3:
             incons.append(inc)
         if problem and len(problems) < 5:
@@ -724,6 +728,7 @@ def run(out: Outcome) -> None:
     use_repo()
     rng = random.Random(seed() * 7919 + 18)
     thorough = out.tier == "thorough"
+    _TIMEOUTS.value = 0
     info = proof_stage(out, "C18", THEOREMS)
     if not info.get("driver_ok"):
         out.infra_error = "Lean driver does not build: " + "; ".join(info.get("broken", []))[:400]
@@ -792,7 +797,12 @@ def run(out: Outcome) -> None:
     # shrink, then prefer examples that need no tie-breaking (all precedences involved distinct),
     # whose operands are plain primaries, and that are short
     cands, done = [], set()
-    for c in problems[:60]:
+    hung = [c for c in problems if "no-return" in c["what"]]
+    for c in hung[:2]:               # re-running or shrinking these would cost a timeout per attempt
+        out.violation({"kind": "pratt", "table": c["table"], "table_encoded": enc_table(c["table"]),
+                       "tokens": c["tokens"], "what": c["what"], "expected": c["expected"], "observed": c["observed"],
+                       "seed": seed(), "command": "./check C18 --replay <this file>"})
+    for c in ([] if hung else problems[:60]):
         tbl, toks = shrink(c["table"], c["tokens"])
         key = (enc_table(tbl), tuple(toks))
         if key in done:
